@@ -115,7 +115,8 @@ def evaluate(case, leaf_budget=None):
     runloop = False
     if case.get("wiring") == "run" and n <= 2 and case["N"] == 2 and case.get("prev_alpha") is None:
         try:
-            leaves += _run_loop(world, case, keys, mts, trees, K, component, tags, 40000)
+            with exact.ResampleMonitor():  # same tie-neutralised resampling rule as for K itself
+                leaves += _run_loop(world, case, keys, mts, trees, K, component, tags, 40000)
             runloop = True
         except exact.Inconclusive:
             pass
